@@ -12,7 +12,9 @@ package main
 //   fail    : newgun@k (k-th NewGun call, 0 = warm-up call) | bind@k (k-th Bind, 1-based) | warmup |
 //             sched@k (k-th NewRPSSchedule call, 1-based) | panic@k (k-th Shoot, 1-based)
 //   cancel  : none | pre | warm | bind | shot<k> | drain | after   (hook inside pool K's mock, default p0)
-//   slow    : prov | agg | shot  (that component ignores its context for slowDelay after the cancel)
+//   slow    : prov | agg | shot  (that component ignores its context for slowDelay after the cancel; prov<ms> / agg<ms>:
+//                              for that many milliseconds instead)
+//   pv      : str (default) | err | int   the value a planned Shoot panic carries: a string, an error, an int
 //             block           (every Shoot reports and then blocks until the gun's context is done: the instances never
 //                              finish on their own, so the run context stays live until the engine reacts to a fault)
 //   ek      : plain (default) | dl | cn  (optional token; dl: every error the mocks of this pool return has the CAUSE
@@ -95,6 +97,8 @@ type poolSpec struct {
 	panicShot         int // 0 none
 	slow              string
 	ek                string // "" | "dl"
+	slowMs            int    // 0 = slowDelay
+	pv                string // "" (string) | err | int: the value of a planned panic
 	rg                string // "" | name of a registered gun factory (real.go)
 	su                string // "" (once) | step | inf
 	suMs              int
@@ -188,6 +192,20 @@ func parsePool(s string) (poolSpec, error) {
 		case "slow":
 			if v != "-" {
 				ps.slow = v
+				for _, c := range []string{"prov", "agg"} {
+					if strings.HasPrefix(v, c) && len(v) > len(c) {
+						ps.slow = c
+						ps.slowMs, err = strconv.Atoi(v[len(c):])
+					}
+				}
+			}
+		case "pv":
+			switch v {
+			case "str", "-":
+			case "err", "int":
+				ps.pv = v
+			default:
+				return ps, fmt.Errorf("bad pv %q", v)
 			}
 		case "rg":
 			switch v {
@@ -435,6 +453,10 @@ func (p *poolRt) retOf(ctx context.Context, ret, comp string) error {
 
 func (p *poolRt) slowIf(comp string) {
 	if p.spec.slow == comp {
+		if p.spec.slowMs > 0 {
+			time.Sleep(time.Duration(p.spec.slowMs) * time.Millisecond)
+			return
+		}
 		time.Sleep(slowDelay)
 	}
 }
@@ -558,7 +580,14 @@ func (g *gunBase) Shoot(ammo core.Ammo) {
 		time.Sleep(slowDelay)
 	}
 	if k == g.p.spec.panicShot {
-		panic(g.p.verr("panic").Error())
+		e := g.p.verr("panic")
+		switch g.p.spec.pv {
+		case "err":
+			panic(e)
+		case "int":
+			panic(4200 + g.p.idx) // a value that is neither an error nor a string
+		}
+		panic(e.Error())
 	}
 	if g.inner != nil {
 		g.inner.Shoot(ammo)
@@ -672,6 +701,7 @@ func (p *poolRt) newSched() (core.Schedule, error) {
 // ---------------------------------------------------------------- classification
 
 var reVerr = regexp.MustCompile(`verr\.([a-z]+)\.p([0-9]+)`)
+var rePoolFail = regexp.MustCompile(`"p([0-9]+)" pool run failed`)
 
 func errCls(err error) string {
 	if err == nil {
@@ -681,6 +711,9 @@ func errCls(err error) string {
 	msg := err.Error()
 	if m := reVerr.FindStringSubmatch(msg); m != nil {
 		return "e." + m[1]
+	}
+	if strings.Contains(msg, "shoot panic") {
+		return "e.panic" // a panic value that is not a text (pv:int)
 	}
 	c := pkgerrors.Cause(err)
 	if c == context.Canceled || c == context.DeadlineExceeded || errors.Is(err, context.Canceled) {
@@ -702,6 +735,12 @@ func resCls(err error) string {
 	}
 	msg := err.Error()
 	m := reVerr.FindStringSubmatch(msg)
+	if m == nil && strings.Contains(msg, "shoot panic") {
+		// a panic value that is not a text (pv:int): the pool is named by the engine's wrapper
+		if pm := rePoolFail.FindStringSubmatch(msg); pm != nil {
+			m = []string{"", "panic", pm[1]}
+		}
+	}
 	if m == nil {
 		if errors.Is(err, context.Canceled) || pkgerrors.Cause(err) == context.Canceled {
 			return "wrappedctx"
